@@ -127,6 +127,9 @@ func (sm *stateMachine) executeAction(t *T) bool {
 		action := sm.actions[sm.actionKeys.Draw(t, "action")]
 		invalid, skipped := runAction(t, action)
 		t.s.endGroup(i, false)
+		if verifOn {
+			verifEmit("action.res", "n", n, "invalid", invalid, "skipped", skipped)
+		}
 
 		if skipped {
 			continue
@@ -135,6 +138,9 @@ func (sm *stateMachine) executeAction(t *T) bool {
 		}
 	}
 
+	if verifOn {
+		verifEmit("action.none")
+	}
 	panic(stopTest(noValidActionsMsg))
 }
 
